@@ -1,6 +1,7 @@
 package checks
 
 import (
+	"errors"
 	"encoding/json"
 	"fmt"
 	"strings"
@@ -490,6 +491,53 @@ func c11Tamper(r *kernel.Run, s C11Spec, w *World, key *kernel.Key, ra *kernel.R
 			r.Probe("trivial-witness-rejected")
 		}
 	}
+	// Byzantine holder with two credentials of this issuer: host A (revoked) and donor B (valid witness). It
+	// builds A's proof with a non-revocation part computed from B's witness under the randomizer of A's own
+	// revocation attribute, hashes B's commitments in A's place, and sends the part with an explicit "alpha"
+	// response (honest provers leave it out; the verifier has to take it from the hidden attribute's response)
+	if wanted(s.OnlyFault, "byzantine:donor-witness-explicit-alpha") {
+		r.Fault("byzantine-holder")
+		host, hled := signRevCredential(key, ra, newSecret(), []*big.Int{randBits(w.hr, 90)})
+		donor, _ := signRevCredential(key, ra, newSecret(), []*big.Int{randBits(w.hr, 90)})
+		if err := ra.Revoke(hled.Witness); err != nil {
+			panic(err)
+		}
+		upd, err := ra.Update(ra.Head(), ra.Head())
+		if err != nil {
+			panic(err)
+		}
+		if err := donor.NonRevocationWitness.Update(pk, upd); err != nil {
+			panic(err)
+		}
+		var pl gabi.ProofList
+		if p := guard(func() {
+			if err = host.NonrevPrepareCache(); err != nil {
+				return
+			}
+			var inner *gabi.DisclosureProofBuilder
+			if inner, err = host.CreateDisclosureProofBuilder(nil, nil, true); err != nil {
+				return
+			}
+			var ri int
+			if ri, err = host.NonrevIndex(); err != nil {
+				return
+			}
+			rnd := inner.CreateProof(big.NewInt(0)).(*gabi.ProofD).AResponses[ri]
+			db := &donorNonrevBuilder{inner: inner, pk: pk, witness: donor.NonRevocationWitness, rnd: rnd}
+			pl, err = gabi.ProofBuilderList{db}.BuildProofList(sess.Context, sess.Nonce, sess.IsSig)
+		}); p != "" || err != nil {
+			r.Probe("byzantine-prover-refused")
+		} else {
+			r.Eval(1)
+			v := verifyWire(mustJSON(pl), sess)
+			if v.Accepted {
+				r.Violate("C11:revoked-credential-accepted", map[string]any{"fault": "byzantine:donor-witness-explicit-alpha"},
+					"a credential revoked in accumulator %d is accepted as non-revoked: its proof carries a non-revocation part made from another credential's witness, with an explicit alpha response", ra.Head())
+			} else {
+				r.Probe("donor-witness-rejected")
+			}
+		}
+	}
 	// Byzantine holder: stale (possibly revoked) witness paired with the newest accumulator through a prepared commitment
 	if wanted(s.OnlyFault, "byzantine:stale-witness-new-accumulator") && provedIdx < uint64(ra.Head()) {
 		r.Fault("byzantine-holder")
@@ -532,6 +580,40 @@ func TestC11(t *testing.T) {
 }
 
 var _ = big.NewInt
+
+// donorNonrevBuilder is a Byzantine holder's wrapper around the honest builder of its (revoked) host
+// credential: the non-revocation commitments and proof come from another credential's witness.
+type donorNonrevBuilder struct {
+	inner   *gabi.DisclosureProofBuilder
+	pk      *gabikeys.PublicKey
+	witness *revocation.Witness
+	rnd     *big.Int
+	commit  *revocation.ProofCommit
+}
+
+func (d *donorNonrevBuilder) Commit(rz map[string]*big.Int) ([]*big.Int, error) {
+	list, err := d.inner.Commit(rz)
+	if err != nil {
+		return nil, err
+	}
+	comms, commit, err := revocation.NewProofCommit(d.pk, d.witness, d.rnd)
+	if err != nil {
+		return nil, err
+	}
+	if len(list) != 2+len(comms) {
+		return nil, errors.New("unexpected contribution layout")
+	}
+	d.commit = commit
+	return append(append([]*big.Int{}, list[:2]...), comms...), nil
+}
+
+func (d *donorNonrevBuilder) CreateProof(c *big.Int) gabi.Proof {
+	pd := d.inner.CreateProof(c).(*gabi.ProofD)
+	pd.NonRevocationProof = d.commit.BuildProof(c) // alpha response left in
+	return pd
+}
+func (d *donorNonrevBuilder) PublicKey() *gabikeys.PublicKey              { return d.pk }
+func (d *donorNonrevBuilder) SetProofPCommitment(*gabi.ProofPCommitment) {}
 
 // ownSecretRandomizerBuilder is a Byzantine holder's wrapper around an honest disclosure builder: it
 // ignores the secret-key randomizer the proof list hands out and uses one of its own choosing.
